@@ -1228,6 +1228,11 @@ impl SubRule {
         if is_context_after {
             pos.increment(&res_word);
         }
+
+        // a `$` or `%` inserted at the very end of the word with nothing after it must not leave an empty syllable
+        if res_word.syllables.len() > 1 && res_word.syllables.last().unwrap().segments.is_empty() {
+            res_word.syllables.pop();
+        }
         
         Ok((res_word, Some(pos)))
     }
